@@ -317,6 +317,8 @@ impl BudgetEnforcer {
     ///
     /// Returns `Err(BudgetBreach)` as soon as a limit is exceeded.
     pub fn observe(&mut self, ev: &Event) -> Result<(), BudgetBreach> {
+        #[cfg(serde_saphyr_verif)]
+        self.verif_log(ev);
         self.report.events += 1;
         if self.report.events > self.budget.max_events {
             return Err(BudgetBreach::Events {
@@ -421,6 +423,54 @@ impl BudgetEnforcer {
         }
 
         Ok(())
+    }
+
+    /// Verification hook: log the event about to be observed together with the enforcer's
+    /// state BEFORE it (see `verif_hooks::BudgetStep`).
+    #[cfg(serde_saphyr_verif)]
+    fn verif_log(&self, ev: &Event) {
+        let (kind, anchor, bytes, merge_key): (&'static str, usize, usize, bool) = match ev {
+            Event::Scalar(v, style, a, tag) => (
+                "S",
+                *a,
+                v.len(),
+                tag.is_none() && matches!(style, ScalarStyle::Plain) && v == "<<",
+            ),
+            Event::SequenceStart(a, _) => ("SS", *a, 0, false),
+            Event::SequenceEnd => ("SE", 0, 0, false),
+            Event::MappingStart(a, _) => ("MS", *a, 0, false),
+            Event::MappingEnd => ("ME", 0, 0, false),
+            Event::Alias(a) => ("AL", *a, 0, false),
+            Event::DocumentStart(_) => ("DS", 0, 0, false),
+            Event::DocumentEnd => ("DE", 0, 0, false),
+            Event::StreamStart => ("STS", 0, 0, false),
+            Event::StreamEnd => ("STE", 0, 0, false),
+            Event::Nothing => ("NOP", 0, 0, false),
+        };
+        let top_expecting_key = match self.containers.last() {
+            Some(ContainerState::Mapping { expecting_key, .. }) => *expecting_key as i8,
+            Some(ContainerState::Sequence { .. }) => -1,
+            None => -2,
+        };
+        crate::verif_hooks::budget_step(crate::verif_hooks::BudgetStep {
+            kind,
+            anchor,
+            bytes,
+            merge_key,
+            expanded: self.aliases_are_expanded,
+            per_document: self.policy == EnforcingPolicy::PerDocument,
+            events: self.report.events,
+            nodes: self.report.nodes,
+            depth: self.depth,
+            max_depth: self.report.max_depth,
+            aliases: self.report.aliases,
+            anchors: self.defined_anchors.len(),
+            scalar_bytes: self.report.total_scalar_bytes,
+            merge_keys: self.report.merge_keys,
+            documents: self.report.documents,
+            containers: self.containers.len(),
+            top_expecting_key,
+        });
     }
 
     fn bump_nodes(&mut self) -> Result<(), BudgetBreach> {
